@@ -473,7 +473,7 @@ def c10_case(ctx: Ctx, case: dict):
 def c10_run(ctx: Ctx):
     n = ctx.n(30, 1200)
     for k in range(n):
-        cfg = gen.ModelCfg(max_inters=7, max_states=4, max_params=4, depth=2)
+        cfg = gen.ModelCfg(max_inters=7, max_states=4, max_params=4, depth=2, p_shared=0.3)
         cfg.expr = gen.ExprCfg(p_cond=0.05, p_ccond=0.01, p_mod=0.01, p_floor=0.01)
         m = gen.gen_model(ctx.rng, cfg)
         base = m.text(None, shuffle_lines=False)
